@@ -162,6 +162,11 @@ class Ctx:
         self.sample_cap = 6
         self.journal_path: str | None = None
         self._jfh = None
+        self.bags: dict[str, list] = {}
+
+    def bag(self, name: str, values):
+        """values (ints / short strings) handed to the parent, which can compare them across shards = across processes"""
+        self.bags.setdefault(name, []).extend(values)
 
     def journal(self, case):
         """write-ahead journal: the case about to run, so that a dead child names its input"""
@@ -250,6 +255,7 @@ class Ctx:
             "notes": self.notes,
             "inconclusive": self.inconclusive,
             "extra": self.extra,
+            "bags": self.bags,
             "wall_s": round(self.elapsed(), 2),
         }
 
@@ -443,7 +449,8 @@ def _finish(prop, tier, seed, mod, results, dead, t0) -> int:
             inconclusive.append(f"monitor counter {cname}={counters.get(cname, 0)} < {minimum} ({why})")
     if hasattr(mod, "post_merge"):
         try:
-            mod.post_merge(dict(counters=counters, cells=cells, extra=extra, tier=tier), viol, vcount, inconclusive)
+            bags = {r["shard"]: r.get("bags", {}) for r in results}
+            mod.post_merge(dict(counters=counters, cells=cells, extra=extra, tier=tier, bags=bags), viol, vcount, inconclusive)
         except Exception as e:  # pragma: no cover
             inconclusive.append(f"post_merge failed: {e!r}")
 
